@@ -1,4 +1,5 @@
 HOOK_COMMITS = ["5763a84"]
+FIX_COMMITS = ["cf6d5f6 (C18)", "C05 cursor fix"]
 NOTES = ("All checks are `bin/check <ID> --tier quick|thorough`. Every check rebuilds the harness from /repo's working tree with --cfg asca_verif, "
          "regenerates spec/gen/Inventory.tla from the tables the code loaded, runs TLC on the property's spec instances and binds them to the code by replay "
          "(spec->impl) and/or trace validation (impl->spec). Exit 2 = tool error, never a verdict.")
@@ -14,6 +15,56 @@ CHECKS = {
         "technique": "TLA+ spec (Features) enumerated exhaustively by TLC; spec->impl replay of every case through the real rule pipeline",
     },
 }
+CHECKS.update({
+    "C03": {
+        "level": "model_checking",
+        "text": "spec/Scan.tla is an independent reference interpreter of the basic fragment written from the manual; mc/MC_Scan.tla is the same interpreter as an explicit state machine "
+                "(FindMatch/EnvReject/Transform/Finish), model-checked exhaustively to refine the recursive operator, to make progress and to preserve well-formedness and the prosodic tier. "
+                "TLC enumerates bounded-exhaustive strata of (rule, word) and a random sample of the full bound; every vector is replayed on the real interpreter comparing the structural "
+                "word AND the per-iteration (position found, environment verdict) sequence recorded by hooks in SubRule::apply.",
+        "note": BASE_NOTE + " The input space of the property (~10^12 points) is covered by exhaustive strata plus seeded sampling, not completely.",
+        "technique": "TLA+ reference interpreter (Scan) + explicit machine model-checked by TLC; spec->impl replay with per-iteration event comparison",
+    },
+    "C05": {
+        "level": "model_checking",
+        "text": "The manual's three-way tables are spec/Supra.tla; TLC enumerates every (length, stress, tone) state x every modifier combination x input/output side x element kind x position "
+                "(exhaustive in the thorough tier), checks set-then-match and the frame law as invariants, and every case is replayed through the real rule pipeline and compared structurally.",
+        "note": BASE_NOTE,
+        "technique": "TLA+ table model (Supra) enumerated by TLC; spec->impl replay of every cell through real rules",
+    },
+    "C18": {
+        "level": "model_checking",
+        "text": "spec/PlacePacking.tla gives the abstraction function of the packed u16, the abstract get/set algebra and a concrete model of the four setters; TLC checks the refinement and the "
+                "get/set/frame/last-gone/no-residue laws for every packed value x 80 setter calls, and the harness checks that the real accessors compute exactly the concrete model on the same values "
+                "(all 2^16+1 in the thorough tier), plus the Segment-level feature laws against Features.tla.",
+        "note": "Trusted: TLC; the harness writes raw packed values through Place's public DerefMut. Quick tier enumerates all well-formed values and a seeded 1/16 of the ill-formed ones.",
+        "technique": "TLA+ refinement (packed word -> abstract place) model-checked exhaustively by TLC; bit-exact spec->impl replay of the accessor calls",
+    },
+    "C10": {
+        "level": "model_checking",
+        "text": "spec/Pipeline.tla models run over an uninterpreted rule function; mc/MC_Pipeline proves staging (every split point) and regrouping (with empty groups) for EVERY rule function on a small "
+                "domain; mc/MC_Stage adds the americanist flag and pins down the exact boundary of the one known counterexample. TLC then enumerates all (sequence length, two groupings, split point) "
+                "schedules within the bound and the harness instantiates each with real rules (repository tests, shipped IE project) comparing the three real runs.",
+        "note": BASE_NOTE + " The property's guard (intermediate output reads back as the same word) is evaluated structurally; unguarded cases are counted in evidence, not judged.",
+        "technique": "TLA+ pipeline model over all rule functions (TLC, exhaustive) + TLC-enumerated schedules replayed on real rule pools",
+    },
+    "C11": {
+        "level": "model_checking",
+        "text": "MC_Pipeline proves per-line independence, order and the first-error rule of the word-major loop nest for every rule function; TLC enumerates every permutation and sublist of small word lists, "
+                "replayed with real rules; and the hook events of apply_rule_groups are validated step by step against the loop-nest machine of tv/TV_Pipeline with a history variable forcing "
+                "(rule, word) -> result to be a function across the list run, a permuted run and the singleton runs (no cross-word data flow).",
+        "note": BASE_NOTE + " 'First failing word' is read per pipeline phase (all words are parsed before any rule is applied), see DESIGN.md C11.",
+        "technique": "TLC model checking of the run loop for all rule functions; spec->impl schedule replay; impl->spec trace validation of loop events (TV_Pipeline)",
+    },
+    "C16": {
+        "level": "model_checking",
+        "text": "MC_Pipeline proves the relation between the group-major trace loop and the word-major run loop (strictly increasing indices, after_i = run of groups 0..i, unreported groups change nothing, "
+                "last state = run) for every rule function; schedules enumerated by TLC are replayed on real rules through trace_changes, get_trace_string and run on every prefix; hook events of "
+                "apply_rules_trace are validated against tv/TV_Pipeline (group-major order, snapshot rule, returned changes = Pipeline!Trace on the recorded history).",
+        "note": BASE_NOTE + " Stated for returned traces only: run and tracer may fail with different errors (refuted SameErr in MC_Pipeline).",
+        "technique": "TLC model checking of trace loop vs run loop for all rule functions; schedule replay; trace validation of loop events (TV_Pipeline)",
+    },
+})
 NOT_APPLICABLE = {}
 for i in range(1, 21):
     k = "C%02d" % i
